@@ -47,8 +47,8 @@ import (
 
 var (
 	c11Srcs  = []string{"dataset", "latest", "union", "multi", "sample", "slow", "http"}
-	c11Trs   = []string{"none", "js", "jsthrow", "jspar4", "http"}
-	c11Sinks = []string{"dataset", "devnull", "console", "http"}
+	c11Trs   = []string{"none", "js", "jsthrow", "jspar4", "jspar4throw", "jsempty", "http"}
+	c11Sinks = []string{"dataset", "devnull", "console", "http", "nodataset"}
 	c11Trigs = []string{"cron", "onchange"}
 	c11Types = []string{JobTypeIncremental, JobTypeFull}
 	c11Ehs   = []string{"none", "log", "logmax", "rerun", "logrerun"}
@@ -134,7 +134,7 @@ type c11Result struct {
 }
 
 type c11Servers struct {
-	src, tr, sink *httptest.Server
+	src, tr, sink, sinkFail *httptest.Server
 }
 
 func c11StartServers() *c11Servers {
@@ -157,10 +157,14 @@ func c11StartServers() *c11Servers {
 		_, _ = io.Copy(io.Discard, r.Body)
 		w.WriteHeader(200)
 	}))
+	s.sinkFail = httptest.NewServer(http.HandlerFunc(func(w http.ResponseWriter, r *http.Request) {
+		_, _ = io.Copy(io.Discard, r.Body)
+		w.WriteHeader(500)
+	}))
 	return s
 }
 
-func (s *c11Servers) close() { s.src.Close(); s.tr.Close(); s.sink.Close() }
+func (s *c11Servers) close() { s.src.Close(); s.tr.Close(); s.sink.Close(); s.sinkFail.Close() }
 
 const c11PoolIncr, c11PoolFull = 4, 2
 
@@ -195,6 +199,10 @@ func c11JobJSON(c c11Cfg, id string, k int, p string, sv *c11Servers) string {
 		tr = vjJSTransform(`function transform_entities(entities) { throw new Error("boom"); }`, 0)
 	case "jspar4":
 		tr = vjJSTransform(`function transform_entities(entities) { var out = []; for (var i = 0; i < entities.length; i++) { out.push(entities[i]); } return out; }`, 4)
+	case "jspar4throw": // every worker's chunk fails
+		tr = vjJSTransform(`function transform_entities(entities) { throw new Error("boom in a worker"); }`, 4)
+	case "jsempty": // the transform drops everything: the sink gets an empty batch
+		tr = vjJSTransform(`function transform_entities(entities) { return []; }`, 0)
 	case "jspar8work": // probes only: 8 workers that keep the javascript runtime busy
 		tr = vjJSTransform(`function transform_entities(entities) { var out = []; for (var i = 0; i < entities.length; i++) { var e = entities[i]; for (var k = 0; k < 200; k++) { SetProperty(e, "x", "p" + (k % 7), {"a": [k, "s" + k]}); } out.push(e); } return out; }`, 8)
 	case "http":
@@ -210,6 +218,10 @@ func c11JobJSON(c c11Cfg, id string, k int, p string, sv *c11Servers) string {
 		snk = map[string]any{"Type": "ConsoleSink", "Prefix": "c11 ", "Detailed": true}
 	case "http":
 		snk = map[string]any{"Type": "HttpDatasetSink", "Url": sv.sink.URL + "/datasets/y/entities"}
+	case "nodataset": // a sink that refuses every batch at once: its dataset does not exist
+		// (an HTTP receiver answering 500 does the same, but the sink's http client retries with a
+		// backoff of seconds, which no quick watchdog can tell from a hang)
+		snk = vjDatasetSink(sink + "-missing")
 	}
 	var eh []any
 	switch c.Eh {
@@ -962,6 +974,42 @@ func (env *c11StormEnv) run(c c11Storm) (problem string, inconclusive bool, extr
 	calm := 0
 	for calm < 15 {
 		if time.Now().After(deadline) {
+			// Not quiet after 10 s although a run takes milliseconds. Either the machine is starved
+			// (inconclusive) or a run slot is held by nobody: a job id listed as running with the same
+			// start time for another 20 s while not a single transform call of any storm job happens in
+			// that time and none is in flight is a slot that was never released ("each run ends ... with
+			// a released run slot"): every later trigger of that id is refused for good.
+			snap := func() (map[string]time.Time, int) {
+				m := map[string]time.Time{}
+				h.Runner.raffle.runningMu.Lock()
+				for id, st := range h.Runner.raffle.runningJobs {
+					m[id] = st.started
+				}
+				h.Runner.raffle.runningMu.Unlock()
+				probe.mu.Lock()
+				n := probe.total
+				for _, v := range probe.inflight {
+					if v > 0 {
+						n = -1
+					}
+				}
+				probe.mu.Unlock()
+				return m, n
+			}
+			before, callsBefore := snap()
+			time.Sleep(20 * time.Second)
+			after, callsAfter := snap()
+			if callsBefore >= 0 && callsBefore == callsAfter {
+				for id, st := range before {
+					if st2, still := after[id]; still && st2.Equal(st) {
+						for _, my := range ids {
+							if my == id {
+								return fmt.Sprintf("job %s is listed as running since %v (for more than 30 s, a run takes milliseconds) although no run of it is in progress: its run slot was never released", id, st.Format("15:04:05.000")), false, nil
+							}
+						}
+					}
+				}
+			}
 			return "", true, nil
 		}
 		h.Runner.raffle.runningMu.Lock()
